@@ -185,8 +185,10 @@ namespace detail
 	{
 		GLM_FUNC_QUALIFIER static vec<L, T, Q> call(vec<L, T, Q> const& x)
 		{
+			typedef typename detail::make_unsigned<T>::type U;
 			T const Shift(static_cast<T>(sizeof(T) * 8 - 1));
-			vec<L, T, Q> const y(vec<L, typename detail::make_unsigned<T>::type, Q>(-x) >> typename detail::make_unsigned<T>::type(Shift));
+			// 0 - x in unsigned arithmetic: negating the most negative value of T is undefined
+			vec<L, T, Q> const y((vec<L, U, Q>(0) - vec<L, U, Q>(x)) >> U(Shift));
 
 			return (x >> Shift) | y;
 		}
